@@ -375,7 +375,7 @@ def run(ctx):
     C.correspond(ctx, "forced-result", call, [exe], drv, judge, sig_of)
     C.correspond(ctx, "result-sequences", seq, [exe], drv, judge, sig_of)
     ocases = gen_opaque_cases(ctx, meta, errnos)
-    oouts = spec_only(ctx, "opaque-wrappers (spec oracle only, exhaustive errnos x argument variants)", ocases, exe) if ocases else []
+    oouts = spec_only(ctx, "no-model wrappers: opaque or not of the property's shape (spec oracle only, exhaustive errnos x argument variants)", ocases, exe) if ocases else []
     # long EBUSY runs (beyond the model's fuel): judged by the property's own statement only
     longs = []
     for w in callable_:
